@@ -17,7 +17,7 @@ RULE = ("real files in a per-run temporary directory under /verif/.work: n in {1
         "'#', empty; written by save_values_and_dt or save_signal (Signal / AccSignal objects); read by load_values_and_dt, "
         "load_signal('signal'|'acc_sig'), load_sig(m), load_asig(load_label, m), m in {1, -2.5}. "
         "distinct = hash of (values, dt, label); non-trivial = at least 3 values, not all equal")
-TIE = ("correspondence (hand models Prelude/Fmt.lean + Model/Loader.lean): the file bytes written by the implementation == the model's "
+TIE = ("translator (digit counts of the format strings regenerated into Gen/Consts, rfl bridge Props/C16Gen) + correspondence (hand models Prelude/Fmt.lean + Model/Loader.lean): the file bytes written by the implementation == the model's "
        "save_text, every loaded double == the double nearest to the model's exact decimal")
 NOT_PROVED = ["np.genfromtxt's tokenizer and strtod (external; the model takes the exact decimal, the harness checks the loaded double is "
               "the nearest one)", "file-system behaviour, text encoding of the label (ASCII labels generated)",
@@ -30,6 +30,8 @@ HALF4 = Fraction(1, 2 * 10**4)
 HALF6 = Fraction(1, 2 * 10**6)
 ULP = Fraction(1, 2**50)       # slack for: nearest double of the written decimal (2^-53 rel) and one float product with m
 
+
+PROP_MODULES = ['C16', 'C16Gen']
 
 def cps(s):
     return " ".join(str(ord(c)) for c in s)
